@@ -4,6 +4,70 @@
 // file is not part of the package; with it on it adds nothing but the package clause.
 package value
 
+// The singletons created by package initialisation (type.go): non-nil, pairwise distinct, with fixed contents.
+//@ invariant value_singletons: null != nil && ternaryTrue != nil && ternaryFalse != nil && ternaryUnknown != nil &&
+//@     booleanTrue != nil && booleanFalse != nil && ternaryTrue != ternaryFalse && ternaryTrue != ternaryUnknown &&
+//@     ternaryFalse != ternaryUnknown && booleanTrue != booleanFalse &&
+//@     ternaryTrue.value == ternary.TRUE && ternaryFalse.value == ternary.FALSE && ternaryUnknown.value == ternary.UNKNOWN &&
+//@     booleanTrue.value && !booleanFalse.value
+
+// ---------------------------------------------------------------------------------------------
+// B1: readings of a value (docs/_posts/2006-01-02-value.md, "Automatic Type Casting")
+// Each reading is a specification function over the value and the heap locations that hold its contents;
+// the text-parsing steps are the (uninterpreted, deterministic) standard-library functions the code calls.
+
+//@ spec opaque intStrictOk(p Primary) bool = is(p, *Integer) ||
+//@     (is(p, *String) && proj(strconv.ParseInt(option.strTrim(as(p, *String).literal), 10, 64), 1) == nil)
+//@ spec opaque intStrictOf(p Primary) int64 = ite(is(p, *Integer), as(p, *Integer).value,
+//@     proj(strconv.ParseInt(option.strTrim(as(p, *String).literal), 10, 64), 0))
+
+//@ spec opaque floatOk(p Primary) bool = is(p, *Integer) || is(p, *Float) ||
+//@     (is(p, *String) && proj(strconv.ParseFloat(option.strTrim(as(p, *String).literal), 64), 1) == nil)
+//@ spec opaque floatOf(p Primary) float64 = ite(is(p, *Integer), float64(as(p, *Integer).value), ite(is(p, *Float), as(p, *Float).value,
+//@     proj(strconv.ParseFloat(option.strTrim(as(p, *String).literal), 64), 0)))
+
+// ToInteger (non-strict): floats are truncated, float-looking text too; NaN and infinities have no integer reading
+//@ spec opaque intLooseOk(p Primary) bool = is(p, *Integer) ||
+//@     (is(p, *Float) && !isNaN(as(p, *Float).value) && !isInf(as(p, *Float).value)) ||
+//@     (is(p, *String) && (proj(strconv.ParseInt(option.strTrim(as(p, *String).literal), 10, 64), 1) == nil ||
+//@                         proj(strconv.ParseFloat(option.strTrim(as(p, *String).literal), 64), 1) == nil))
+//@ spec opaque intLooseOf(p Primary) int64 = ite(is(p, *Integer), as(p, *Integer).value,
+//@     ite(is(p, *Float), int64(as(p, *Float).value),
+//@     ite(proj(strconv.ParseInt(option.strTrim(as(p, *String).literal), 10, 64), 1) == nil,
+//@         proj(strconv.ParseInt(option.strTrim(as(p, *String).literal), 10, 64), 0),
+//@         int64(proj(strconv.ParseFloat(option.strTrim(as(p, *String).literal), 64), 0)))))
+
+//@ func ToIntegerStrictly
+//@   property C06 C14
+//@   reveal intStrictOk intStrictOf
+//@   ensures [reading] intStrictOk(p) ==> is(result, *Integer) && as(result, *Integer).value == intStrictOf(p)
+//@   ensures [fresh] intStrictOk(p) ==> fresh(result)
+//@   ensures [null-otherwise] !intStrictOk(p) ==> result == null
+//@   modifies nothing
+
+//@ func ToInteger
+//@   property C06 C14
+//@   reveal intLooseOk intLooseOf
+//@   ensures [reading] intLooseOk(p) ==> is(result, *Integer) && as(result, *Integer).value == intLooseOf(p)
+//@   ensures [fresh] intLooseOk(p) ==> fresh(result)
+//@   ensures [null-otherwise] !intLooseOk(p) ==> result == null
+//@   modifies nothing
+
+//@ func ToFloat
+//@   property C06 C14
+//@   reveal floatOk floatOf
+//@   ensures [reading] floatOk(p) ==> is(result, *Float) && same(as(result, *Float).value, floatOf(p))
+//@   ensures [fresh] floatOk(p) ==> fresh(result)
+//@   ensures [null-otherwise] !floatOk(p) ==> result == null
+//@   modifies nothing
+
+//@ func IsNull
+//@   inline
+//@ func Discard
+//@   property C14
+//@   ensures true
+//@   modifies nothing
+
 //@ func compareInteger
 //@   property C06
 //@   ensures [eq] v1 == v2 ==> result == IsEqual
